@@ -1,6 +1,6 @@
 """C12 - pipelines are reusable recipes (DESIGN 6/C12): Pipeline.tla re-subscribes the same pipeline object from fresh state; the replayer
 also interleaves two subscriptions of one pipeline and applies one operator value to two sources."""
-import vlib, parts_creation, parts_multi, parts_pipeline as pp, common
+import vlib, parts_creation, parts_resub, parts_multi, parts_pipeline as pp, common
 
 PID = 'C12'
 
@@ -12,6 +12,8 @@ def main(argv):
     pp.run(rep, PID, common.pipeline_cfgs(rep, 'reuse'), modes='interleave,multi-apply')
     # multi-source operator forms: one operator VALUE (MergeWith(b), ZipWith(b), TakeUntil(sig), ...) applied to the real source and to a decoy
     parts_multi.run_reuse(rep, PID, rep.tier == 'thorough')
+    # re-subscribing operators (Retry, RepeatWith, While, Catch, ConcatWith, ...): one operator value applied to the real source and to a decoy
+    parts_resub.run(rep, PID, rep.tier == 'thorough')
     # creation operators: the same observable value subscribed twice replays the whole script, user functions run once per subscription
     parts_creation.run(rep, PID, rep.tier == 'thorough')
     rep.cov['rule'] = common.PIPE_RULE + ('; C12: (a) behaviours with a second Subscribe of the SAME pipeline object after the first closed (expected = fresh state), '
@@ -26,6 +28,8 @@ def replay(path):
     vlib.build_harness()
     import json
     mod = json.load(open(path))['replay'].get('module')
+    if mod == 'ResubGen':
+        return parts_resub.replay_case(PID, path)
     if mod == 'Creation':
         return parts_creation.replay_case(PID, path)
     if mod == 'MultiGen':
